@@ -34,6 +34,10 @@ CLAIMED = {
                 text="TLC enumerates the 72-cell authentication matrix and all reload interleavings of a small identity state machine written from the property text (negative-control models must fail); every cell and script is executed as real handshakes with rcgen-generated chains through the repository's own tls_connect / make_server_config / reload_tls_identity, with an application-data round trip deciding 'reached the server', and TLC validates every logged observation.",
                 note="thin use of TLA+ (decision table + small state machine); cryptography trusted to rustls/webpki/rcgen; the application client is TLS 1.3 only, TLS 1.2 is covered on the server side with a reference client",
                 ref="DESIGN.md section 4 (C17)"),
+    "C14": dict(engine="gate", technique="TLA+ decision table (Upgrade.tla) enumerated by TLC; every case sent in-process to the real hyper Service with an unknown-path twin; responses validated by TLC",
+                text="The upgrade gate's decision table is written in TLA+ from the property text and PROTOCOL.md (three-valued: a variant the property does not decide is 'either'); TLC checks its theorems over all verdict vectors and enumerates the valid request, all single and pair deviations (thorough: triples, a configured backend) x configurations; every case is built as a concrete http::Request, sent to rusty_penguin_lib::server::State in-process together with the identical request on an unknown path, and TLC re-classifies the logged request octets itself and validates status, headers, body, protocol header and an independently computed RFC 6455 accept hash.",
+                note="thin use of TLA+ (decision table); in-process call: hyper's HTTP/1 parser and the tunnel behind a 101 are not exercised; the backend-configured variant runs in the thorough tier only",
+                ref="DESIGN.md section 4 (C14)"),
     "C16": dict(engine="keepalive", technique="timed TLA+ model (Keepalive.tla) checked by TLC + virtual-time traces of the real task validated by TLC",
                 text="TLC checks the clauses of C16 on the tick-based detector for every (I,T) of a grid and every pong history within the horizon (integer time); the real connection task runs on tokio's paused clock against a silent transport with a scripted responder for TLC-enumerated and random cases, and TLC evaluates the same clause definitions on every virtual-time trace.",
                 note="virtual time (exact); FIFO pongs; same-instant events may be processed in either order; finding F12 (false timeouts when I does not divide T) is a known design-level finding",
@@ -54,7 +58,6 @@ for p in props:
 
 PENDING = {
     "C01": "end-to-end tunnel driver not built yet in this session",
-    "C14": "decision table and in-process gate driver under construction",
     "C19": "back-off / reconnection drivers under construction",
 }
 manifest = dict(
@@ -70,6 +73,7 @@ manifest = dict(
         dict(name="socks", path="tools/fam_socks.py", serves_properties=["C18"], kind_free_text="Socks.tla / MC_Socks.tla / SocksTrace.tla + harness socks_vec"),
         dict(name="chain", path="tools/fam_chain.py", serves_properties=["C20"], kind_free_text="Chain.tla / ChainTrace.tla + harness chain_vec"),
         dict(name="keepalive", path="tools/fam_keepalive.py", serves_properties=["C16"], kind_free_text="Keepalive.tla / KeepaliveTrace.tla + harness keepalive_sim"),
+        dict(name="gate", path="tools/fam_gate.py", serves_properties=["C14"], kind_free_text="Upgrade.tla / MC_Upgrade.tla / UpgradeTrace.tla + harness_app gate"),
         dict(name="wake", path="tools/fam_wake.py", serves_properties=["C12"], kind_free_text="WriterWake.tla / WakeTrace.tla + loom hook penguin-mux/src/verif_wake.rs"),
         dict(name="tls", path="tools/fam_tls.py", serves_properties=["C17"], kind_free_text="TlsAuth.tla / MC_TlsAuth.tla / TlsTrace.tla + harness_app tls_matrix"),
     ],
